@@ -679,6 +679,7 @@ impl<C: OrdColl> OrdExec<C> {
         self.since_snap = 0;
         self.last_buf_len = s.slots.len();
         rep.counters.inc("snapshots_checked");
+        rep.evaluations += 1;
         if mon.structure {
             match snap::check_structure(&s, |p| p.0 as i64) {
                 Ok(info) => {
